@@ -581,7 +581,7 @@ func wireDecodeMain(rc *RunCtx) {
 			return
 		}
 		if predelivered {
-			bound := uint64(512<<10) + 64*uint64(min(frameLen, 4+1<<20)) // the announced frame length, which is capped at 1 MiB (x64: a deeply nested dictionary costs a map, an interface and a key per four bytes of input)
+			bound := uint64(512<<10) + 512*uint64(min(frameLen, 4+1<<20)) // the announced frame length, which is capped at 1 MiB (x512: a list nested n deep costs n bytes of input and a slice, an interface and a decoder frame per level - 300 to 400 bytes; still linear in the message)
 			if a1-a0 > bound {
 				// measure again, in isolation and with warm caches: the
 				// same bytes from memory
